@@ -46,6 +46,14 @@ def option_variants(ids, opt_dev):
                 o = dict(base)
                 o.update(dict(zip(ks, vals)))
                 yield o
+    if opt_dev < 2:
+        # option pairs that meet in the same code (the flux-sum cap and the loop removal are both built on the
+        # objective constraint at the requested fraction) are explored even when the deviation bound is 1
+        for extra in ({"fraction": 0.5, "pfba_factor": 1.0}, {"fraction": 0.5, "pfba_factor": 1.5},
+                      {"fraction": 0.5, "loopless": True}):
+            o = dict(base)
+            o.update(extra)
+            yield o
 
 
 def objective_menu(ids):
